@@ -71,4 +71,48 @@ impl<T> IterExt<T> for Vec<T> {
         true
     }
 }
+
+/// `.iter().max()` / `.iter().min()` on `Vec<u8>` (asset decimals): verified, returns a reference to an extremal element
+pub trait IterMaxU8 {
+    fn iter_max(&self) -> (r: Option<&u8>);
+    fn iter_min(&self) -> (r: Option<&u8>);
+}
+pub open spec fn seq_max_u8(s: Seq<u8>, m: u8) -> bool {
+    (exists|k: int| 0 <= k < s.len() && s[k] == m) && (forall|j: int| 0 <= j < s.len() ==> s[j] <= m)
+}
+pub open spec fn seq_min_u8(s: Seq<u8>, m: u8) -> bool {
+    (exists|k: int| 0 <= k < s.len() && s[k] == m) && (forall|j: int| 0 <= j < s.len() ==> s[j] >= m)
+}
+impl IterMaxU8 for Vec<u8> {
+    fn iter_max(&self) -> (r: Option<&u8>)
+        ensures match r { Some(m) => seq_max_u8(self@, *m), None => self@.len() == 0 }
+    {
+        if self.len() == 0 { return None; }
+        let mut best: usize = 0;
+        let mut i: usize = 1;
+        while i < self.len()
+            invariant 1 <= i <= self.len(), best < i, forall|j: int| 0 <= j < i ==> self@[j] <= self@[best as int],
+            decreases self.len() - i,
+        {
+            if self[i] >= self[best] { best = i; }
+            i += 1;
+        }
+        Some(&self[best])
+    }
+    fn iter_min(&self) -> (r: Option<&u8>)
+        ensures match r { Some(m) => seq_min_u8(self@, *m), None => self@.len() == 0 }
+    {
+        if self.len() == 0 { return None; }
+        let mut best: usize = 0;
+        let mut i: usize = 1;
+        while i < self.len()
+            invariant 1 <= i <= self.len(), best < i, forall|j: int| 0 <= j < i ==> self@[j] >= self@[best as int],
+            decreases self.len() - i,
+        {
+            if self[i] < self[best] { best = i; }
+            i += 1;
+        }
+        Some(&self[best])
+    }
+}
 } // verus!
